@@ -13,7 +13,11 @@
    request metadata when cfg.withmd).  The field numbers of the design are fixed and deliberately not
    contiguous: a0 = 3, a1 = 7 (OneOf members x = 7, y = 9), nested type v = 2, w = 5, r0 = 4, r1 = 6.
    cfg.tagmode says how the design numbers the attribute under test: "ok", "dup" (same number as a sibling)
-   or "untagged" (Attribute instead of Field).
+   or "untagged" (Attribute instead of Field).  cfg.explicit: the design lists the attributes of the request and
+   response messages explicitly (GRPC(func(){ Message(func(){ Attribute("a0"); Attribute("a1") }) })) instead of
+   leaving them to be derived.  cfg.raw: the request does not come from the generated client but is a bare
+   protocol buffer message (as any other gRPC client could send it) in which the field of an unset attribute is
+   simply missing - also for attributes the generated client cannot leave unset.
 
    As in HTTPTransport there is a *mechanism* (what the generator and the generated code do; named
    deviations = what the real code is known to do differently) and an *oracle* (what the design
@@ -21,9 +25,9 @@
 EXTENDS Values, TLC
 
 CONSTANTS Deviations,
-          Family        \* "req" | "res" | "wf": which part of the envelope Init enumerates
+          Family        \* "req" | "res" | "wf" | "xm": which part of the envelope Init enumerates
 
-VARIABLES cfg,        \* [pa, ra, stream, tagmode, withmd, devs]
+VARIABLES cfg,        \* [pa, ra, stream, tagmode, withmd, explicit, raw, devs]
           pv, rv,     \* payload value given by the caller / result value returned by the service method
           pc,
           accepted,   \* did eval accept the design
@@ -63,7 +67,9 @@ GWF(a) ==
   /\ (a.mode = "default" => a.nest \in {"direct", "alias"} /\ a.kind # "bytes")
   \* the explicit widths only change what the numbers can hold: explored with the range rules
   /\ (a.w \in {"32", "64"} => a.rule \in {"none", "min", "max"})
-GAttrSpace(locs) == {a \in [kind: Kinds, w: {"n", "32", "64"}, loc: locs, mode: Modes, rule: Rules, nest: GNests] : GWF(a)}
+\* the gRPC envelope keeps to single rules (the two-rule attributes of lib/Values.tla are exercised over HTTP)
+GRules == Rules \ {"range", "xrange", "lenrange"}
+GAttrSpace(locs) == {a \in [kind: Kinds, w: {"n", "32", "64"}, loc: locs, mode: Modes, rule: GRules, nest: GNests] : GWF(a)}
 
 \* values: those of lib/Values.tla; a 32 bit attribute cannot even be given the "big" value; a OneOf attribute
 \* holds member x (the leaf under test, cn = 1) or member y (a plain string, cn = 2)
@@ -109,6 +115,9 @@ StreamSS == cfg.stream \in {"server", "bidi"}
 \*   tags.unchecked_with_metadata    when request metadata is mapped, the numbers of the remaining message attributes are not checked
 \*   tags.nested_types_unchecked     the numbers inside a user type used as attribute are not checked
 \*   validate.absent_collection_length  (see SideValid)
+\*   message.explicit_loses_required  (hypothetical, a vacuity guard: no such behaviour is known) an attribute listed in an
+\*                                   explicit request Message mapping is no longer required in the request message
+LosesRequired == Dev("message.explicit_loses_required") /\ cfg.explicit /\ cfg.pa.mode = "required" /\ cfg.pa.loc = "message"
 
 \* --- eval
 Accept ==
@@ -129,7 +138,7 @@ Fld(m, n, k, lb, t, o) == [msg |-> m, name |-> n, number |-> k, label |-> lb, ty
 Num(design) == IF cfg.tagmode = "untagged" THEN 0 ELSE IF cfg.tagmode = "dup" THEN Tag0 ELSE design
 \* fields generated for the attribute under test `a` named `n` with number `k` in message `m`
 AttrFields(m, n, k, a, tagged) ==
-  LET lb == IF a.mode # "required" THEN "optional" ELSE "singular" IN
+  LET lb == IF a.mode # "required" \/ (tagged /\ LosesRequired) THEN "optional" ELSE "singular" IN
   CASE a.nest \in {"direct", "alias"} -> <<Fld(m, n, k, lb, PType(a), "")>>
     [] a.nest = "elem" -> <<Fld(m, n, k, "repeated", PType(a), "")>>
     [] a.nest = "mapkey" -> <<Fld(m, n, k, "map", "map", "")>>
@@ -164,6 +173,7 @@ ReadBack(a, w) == IF w.loc = "none" THEN (IF a.mode = "default" THEN DefaultOf(a
 SideValid(a, d) ==
   IF d = Absent /\ a.mode = "optional" /\ a.rule = "cminlen" /\ Dev("validate.absent_collection_length") THEN FALSE
   ELSE GValid(a, d)
+ReqValid(d) == IF d = Absent /\ LosesRequired THEN TRUE ELSE SideValid(cfg.pa, d)
 SideViolation(a, d) == IF d = Absent /\ a.mode = "optional" /\ a.rule = "cminlen" THEN "invalid_length" ELSE ViolationOf(a, d)
 
 ---------------------------------------------------------------------------
@@ -172,7 +182,13 @@ FixedR == GAttr("int", "64", "message", "required", "none", "direct")
 FixedVal == V("int", 3, "plain", 1)
 WFShapes == {GAttr("int", "n", "message", "required", "none", ns) : ns \in {"direct", "elem", "mapval", "nested", "oneof"}}
          \cup {GAttr("string", "n", "message", "optional", "none", ns) : ns \in {"direct", "nested", "oneof"}}
-Cfg(pa, ra, st, tm, md) == [pa |-> pa, ra |-> ra, stream |-> st, tagmode |-> tm, withmd |-> md, devs |-> Deviations]
+Cfg(pa, ra, st, tm, md) == [pa |-> pa, ra |-> ra, stream |-> st, tagmode |-> tm, withmd |-> md, explicit |-> FALSE, raw |-> FALSE, devs |-> Deviations]
+\* the explicit-message family: message attributes of a few kinds, every mode; a valid, an invalid and (raw or where the
+\* client can) no value
+XMShapes == {a \in [kind: {"int", "string"}, w: {"n", "64"}, loc: {"message"}, mode: Modes, rule: {"min", "none"}, nest: {"direct", "alias", "nested", "elem"}] :
+               GWF(a) /\ (a.kind = "int" <=> a.w = "64") /\ (a.kind = "int" <=> a.rule = "min")}
+XMVals(a, raw) == {V(a.kind, 3, "plain", 1)} \cup (IF a.rule = "min" THEN {V(a.kind, 1, "plain", 1)} ELSE {})
+                  \cup (IF raw \/ GCanBeAbsent(a) THEN {Absent} ELSE {})
 
 Init ==
   /\ \/ /\ Family = "req"
@@ -187,6 +203,9 @@ Init ==
              /\ (st # "none" => a.nest = "direct" /\ tm = "ok" /\ ~md)
              /\ cfg = Cfg(a, FixedR, st, tm, md)
              /\ pv = (IF a.kind = "int" THEN V("int", 3, "plain", 1) ELSE V("string", 3, "plain", 1)) /\ rv = FixedVal
+     \/ /\ Family = "xm"
+        /\ \E a \in XMShapes : \E ex \in BOOLEAN : \E md \in BOOLEAN : \E rw \in BOOLEAN : \E v \in XMVals(a, rw) :
+             /\ cfg = [Cfg(a, FixedR, "none", "ok", md) EXCEPT !.explicit = ex, !.raw = rw] /\ pv = v /\ rv = FixedVal
   /\ pc = "eval" /\ accepted = FALSE /\ proto = <<>> /\ rpcs = <<>> /\ descok = FALSE
   /\ wire = [loc |-> "none", v |-> Absent] /\ delivered = Absent /\ invoked = FALSE /\ errname = "none"
   /\ rwire = [loc |-> "none", v |-> Absent] /\ returned = Absent /\ cerr = "none"
@@ -215,12 +234,12 @@ ServerDecode ==
   /\ UNCHANGED <<cfg, pv, rv, accepted, proto, rpcs, descok, wire, invoked, errname, rwire, returned, cerr>>
 ServerValidate ==
   /\ pc = "validate"
-  /\ IF SideValid(cfg.pa, delivered)
+  /\ IF ReqValid(delivered)
      THEN pc' = "invoke" /\ UNCHANGED <<errname, cerr>>
      ELSE pc' = "done" /\ errname' = SideViolation(cfg.pa, delivered) /\ cerr' = "remote"
   /\ UNCHANGED <<cfg, pv, rv, accepted, proto, rpcs, descok, wire, delivered, invoked, rwire, returned>>
 Invoke ==
-  /\ pc = "invoke" /\ invoked' = TRUE /\ pc' = "respond"
+  /\ pc = "invoke" /\ invoked' = TRUE /\ pc' = (IF cfg.raw THEN "done" ELSE "respond")      \* a raw request is followed up to user code
   /\ UNCHANGED <<cfg, pv, rv, accepted, proto, rpcs, descok, wire, delivered, errname, rwire, returned, cerr>>
 ServerEncode ==
   /\ pc = "respond"
@@ -268,7 +287,7 @@ InvokedIffValid == pc = "done" /\ accepted /\ descok /\ Family # "wf" =>
     /\ (Violates(cfg.pa, pv) => ~invoked)
 ResultIntact == cerr = "result" => returned \in AllowedDelivered(cfg.ra, rv)
 ResponsePartition == pc \in {"cdecode", "cvalidate"} => rwire.loc \in AllowedWhere(cfg.ra, rv)
-ClientRejectsInvalidResult == pc = "done" /\ invoked =>
+ClientRejectsInvalidResult == pc = "done" /\ invoked /\ ~cfg.raw =>
     /\ (Violates(cfg.ra, rv) => cerr = "validation")
     /\ (Satisfies(cfg.ra, rv) => cerr = "result")
 =============================================================================
